@@ -420,6 +420,11 @@ class Evaluator:
             return ("tuple", tuple(reversed(args[0][1])) if name == "reversed" else args[0][1])
         if name == "len" and len(args) == 1 and args[0][0] == "tuple":
             return ("const", len(args[0][1]))
+        if name in ("any", "all") and len(args) == 1 and args[0][0] == "tuple":
+            ts = [self.truth(x, facts) for x in args[0][1]]
+            return ("bool", any(ts) if name == "any" else all(ts))
+        if name == "bool" and len(args) == 1:
+            return ("bool", self.truth(args[0], facts))
         if name == "enumerate" and len(args) == 1 and args[0][0] == "tuple":
             return ("tuple", tuple(("tuple", (("const", i), x)) for i, x in enumerate(args[0][1])))
         if name in self.stubs:
